@@ -4,6 +4,8 @@ import HcipyVerif.Model.FieldProg
 set_option linter.unusedSimpArgs false
 set_option linter.unusedVariables false
 
+deriving instance DecidableEq for Except
+
 namespace HcipyVerif.FieldProg
 
 /-- the value part of an evaluation result -/
@@ -403,5 +405,62 @@ theorem lookup_bind {α} (l : List (Nat × α)) (x h : Nat) (r : α) :
   · subst hx; simp [List.lookup_cons]
   · have : (h == x) = false := by simpa using hx
     simp [List.lookup_cons, this, hx, lookup_filter_ne l x h hx]
+
+/-! ## The decidable side condition implies the semantic one -/
+
+theorem sameTagB_sound {r s : Except Err Val} (h : sameTagB r s = true) : tagOf r = tagOf s := by
+  cases r with
+  | error e =>
+    cases s with
+    | error f => simp only [sameTagB, beq_iff_eq] at h; subst h; rfl
+    | ok w => simp [sameTagB] at h
+  | ok v =>
+    cases s with
+    | error f => simp [sameTagB] at h
+    | ok w => simp only [sameTagB, beq_iff_eq] at h; simp [tagOf, Except.map, h]
+
+theorem shapedAgreeB_sound (P Q : Policy) (gs : Grids) (lo ln : Nat → Except Err Val) (e : Expr)
+    (h : shapedAgreeB P Q gs lo ln e = true) : ShapedAgree P Q gs lo ln e := by
+  induction e with
+  | var x => trivial
+  | lit a => trivial
+  | scal c k => trivial
+  | field a g => trivial
+  | bin op l r ihl ihr => simp only [shapedAgreeB, Bool.and_eq_true] at h; exact ⟨ihl h.1, ihr h.2⟩
+  | mask e m ihe ihm => simp only [shapedAgreeB, Bool.and_eq_true] at h; exact ⟨ihe h.1, ihm h.2⟩
+  | shaped e ih => simp only [shapedAgreeB, Bool.and_eq_true] at h; exact ⟨ih h.1, sameTagB_sound h.2⟩
+  | un u e ih => exact ih h
+  | red r ax e ih => exact ih h
+  | idx i e ih => exact ih h
+  | reshape s e ih => exact ih h
+  | ravel e ih => exact ih h
+  | copy e ih => exact ih h
+  | pickle e ih => exact ih h
+  | app1 f e ih => exact ih h
+  | app2 f a b iha ihb => simp only [shapedAgreeB, Bool.and_eq_true] at h; exact ⟨iha h.1, ihb h.2⟩
+  | app3 f a b c iha ihb ihc =>
+    simp only [shapedAgreeB, Bool.and_eq_true] at h; exact ⟨iha h.1.1, ihb h.1.2, ihc h.2⟩
+
+theorem stmtAgreeB_sound (gs : Grids) (so : OState) (sn : NState) (st : Stmt)
+    (h : stmtAgreeB gs so sn st = true) : StmtAgree gs so sn st := by
+  cases st with
+  | assign x e => exact shapedAgreeB_sound _ _ _ _ _ e h
+  | alias y x => trivial
+  | update x u args =>
+    intro e he
+    simp only [stmtAgreeB, List.all_eq_true] at h
+    exact shapedAgreeB_sound _ _ _ _ _ e (h e he)
+
+theorem progAgreeB_sound (gs : Grids) (p : List Stmt) :
+    ∀ so sn, progAgreeB gs so sn p = true → ProgAgree gs so sn p := by
+  induction p with
+  | nil => intro so sn _; trivial
+  | cons st rest ih =>
+    intro so sn h
+    simp only [progAgreeB, Bool.and_eq_true] at h
+    refine ⟨stmtAgreeB_sound gs so sn st h.1, fun so' sn' ho hn => ih so' sn' ?_⟩
+    have h2 := h.2
+    rw [ho, hn] at h2
+    exact h2
 
 end HcipyVerif.FieldProg
